@@ -229,3 +229,21 @@ package fasthttp
 //@   ensures[slot-iff-dial-decided] delta_connsCount == (createConn ? 1 : 0)
 //@   ensures[failed-dial-returns-slot] dialed && err != nil ==> gaveBack
 //@   ensures[error-keeps-no-slot] err != nil && createConn ==> gaveBack
+
+// dialConnFor (re-dial on behalf of a waiting request, holding the slot decConnsCount handed over): a failed dial
+// gives the slot back exactly once whether or not the waiter is still there; a successful one never does.
+//@ func HostClient.dialConnFor
+//@   property C18
+//@   mode skeleton
+//@   ghost failed bool = false
+//@   ghost dec int = 0
+//@   ghost pooled int = 0
+//@   on call HostClient.dialHostHard -> conn, e:
+//@     effect failed = (e != nil)
+//@   on call HostClient.decConnsCount:
+//@     effect dec = dec + 1
+//@   on call HostClient.ReleaseConn:
+//@     effect pooled = pooled + 1
+//@   end
+//@   ensures[failed-dial-returns-slot] failed ==> dec == 1 && pooled == 0
+//@   ensures[successful-dial-keeps-slot] !failed ==> dec == 0 && pooled <= 1
